@@ -1189,6 +1189,7 @@ func checkC09(p *Prog, r *Report) {
 	ruleAbortMachinery(p, r)
 	ruleHTTPStatus(p, r)
 	ruleValidatorsExamineAllLines(p, r)
+	ruleShortCircuitSkips(p, r, sessionPkgs, newSummarizer(p))
 	ruleStatusAfterSession(p, r, "R13.2")
 	ruleTruthfulStatus(p, r, "R13.5")
 	ruleFiniteWaits(p, r)
